@@ -7,8 +7,8 @@ NAIVE = "sktime.forecasting.naive"
 SPLIT = "sktime.forecasting.model_selection._split"
 
 PROGRAMS = {
-    "quick": [["U1", "P"], ["U0", "P"], ["P", "U1", "P"], ["U1", "U0", "P"], ["U0", "U1", "P"], ["U0", "R1", "P"], ["S1"], ["S0"], ["UP1"], ["UP0"], ["U1", "UP1"], ["UP1", "P"]],
-    "thorough": [["U1", "P"], ["U0", "P"], ["P", "U1", "P"], ["P", "U0", "P"], ["U1", "U0", "P"], ["U0", "U1", "P"], ["U0", "R1", "P"], ["R1", "P"], ["U1", "U1", "P"], ["U0", "U0", "P"], ["S1"], ["S0"], ["S1", "P"], ["U1", "S0"], ["UP1"], ["UP0"],
+    "quick": [["U1", "P"], ["U0", "P"], ["P", "U1", "P"], ["U1", "U0", "P"], ["U0", "U1", "P"], ["U0", "R1", "P"], ["U1", "PA"], ["U0", "PA"], ["S1"], ["S0"], ["UP1"], ["UP0"], ["U1", "UP1"], ["UP1", "P"]],
+    "thorough": [["U1", "P"], ["U0", "P"], ["P", "U1", "P"], ["P", "U0", "P"], ["U1", "U0", "P"], ["U0", "U1", "P"], ["U0", "R1", "P"], ["R1", "P"], ["U1", "PA"], ["U0", "PA"], ["U1", "U0", "PA"], ["U1", "U1", "P"], ["U0", "U0", "P"], ["S1"], ["S0"], ["S1", "P"], ["U1", "S0"], ["UP1"], ["UP0"],
                  ["U1", "UP1"], ["U0", "UP0"], ["UP1", "P"], ["UP0", "P"], ["UP1", "U1", "P"]],
 }
 KINDS = ["naive-last", "naive-mean-wlnone", "naive-mean-wl2", "member", "member-selffh", "ensemble", "pipeline", "stacking"]
@@ -51,6 +51,8 @@ class C10(Harness):
             for prog in PROGRAMS[tier]:
                 if k in ("member", "ensemble", "pipeline", "stacking") and any(o.startswith("UP") for o in prog):
                     continue  # update_predict of composites: twin comparison needs window forecasters
+                if k == "stacking" and "PA" in prog:
+                    continue  # (the stacker's hold-out window cannot hold a far absolute horizon on these short series)
                 if k == "member-selffh" and not any(o.startswith("UP") for o in prog):
                     continue  # (same as "member" there)
                 out.append({"name": "%s-%s" % (k, "".join(prog)), "kind": k, "prog": prog, "cost": len(prog)})
@@ -77,8 +79,10 @@ class C10(Harness):
         ctx.assume((ov >= 0) & (ov <= 1))
         inp["ov"] = int(ov)
         first = True
+        if "PA" in prog and not inp["fh_in_fit"]:
+            ctx.assume(False)  # "PA": predict() without arguments for an absolute horizon given at fit
         for i, op in enumerate(prog):
-            if op == "P":
+            if op in ("P", "PA"):
                 continue
             if op == "R1":  # a revision-only batch: the last remembered label again, with another value, refitting
                 inp["batches"].append({"ov": 1, "vals": fresh_reals(ctx, "b%d_" % i, 1)})
@@ -138,8 +142,15 @@ class C10(Harness):
         twin = self._build(W, kind, tlog)
         fh = np.array(inp["fh"])
         y1 = pd.Series(inp["y1"], index=pd.RangeIndex(s0, s0 + len(inp["y1"])))
+        abs_labels = None
+        if "PA" in prog:
+            # the horizon is a set of absolute time points beyond every later batch; it is given once, at fit
+            FH = W.load("sktime.forecasting.base").ForecastingHorizon
+            abs_labels = [s0 + len(inp["y1"]) + 5 + h for h in inp["fh"]]
         for g in (f, twin):
-            if inp["fh_in_fit"]:
+            if abs_labels is not None:
+                g.fit(y1, fh=FH(np.array(abs_labels), is_relative=False))
+            elif inp["fh_in_fit"]:
                 g.fit(y1, fh=fh)
             else:
                 g.fit(y1)
@@ -156,6 +167,9 @@ class C10(Harness):
                 if op == "P":
                     p = f.predict(fh)
                     twin.predict(fh)
+                    rec["pred"] = [L(p.index), L(p.values)]
+                elif op == "PA":
+                    p = f.predict()
                     rec["pred"] = [L(p.index), L(p.values)]
                 else:
                     b = inp["batches"][bi]
@@ -266,6 +280,16 @@ class C10(Harness):
             if op == "P":
                 have_fh = True
                 check_pred(st["pred"], cutoff_off, fitted_len, last_mode)
+                check_state(st["state"])
+                continue
+            if op == "PA":
+                # the remembered absolute horizon still means the same time points after the cutoff has moved
+                idx, vals = st["pred"]
+                P.check("forecast-index-from-new-cutoff", len(idx) == len(fh))
+                for a, v, h in zip(idx, vals, fh):
+                    lab_off = len(inp["y1"]) + 5 + h
+                    P.eq("forecast-index-from-new-cutoff", a, s0 + lab_off, {"what": "absolute horizon given at fit"})
+                    P.eq(last_mode, v, expect(lab_off - cutoff_off, cutoff_off, fitted_len))
                 check_state(st["state"])
                 continue
             b = inp["batches"][bi]
